@@ -104,3 +104,12 @@ META["C04"] = dict(
     level_note=("Trusted: gorilla/websocket and net/http as the WebSocket transport under the library's adapters; the harness' own base64 encoder. "
                 "Hooks: the tunnel carriers are reached through constructors compiled only with the verif build tag."),
 )
+
+META["C05"] = dict(
+    design_ref="DESIGN.md section 4, C05",
+    technique="property-based round-trip testing (rapid): generated descriptions over all 22 format types -> Marshal -> library parser; grammar-mutated and arbitrary SDP for totality and re-marshal stability; native go fuzzing of the SDP parser in the thorough tier",
+    level_text=("Exploration: generated descriptions with every format type and parameter combination the generator can build, compared through "
+                "the accessors the property names plus field equality; the reverse direction feeds hostile SDP and checks the parse->marshal->parse "
+                "fixpoint on whatever is accepted."),
+    level_note="Trusted: mediacommon's parsers as validity filters for codec blobs; reflect.DeepEqual with nil==empty normalisation.",
+)
